@@ -15,13 +15,12 @@
          gating, the miss-witness rule and the one-token-per-question accounting, over an
          abstract store, with the body-level shaping equalities as explicit premises and
          alias composition (serveChaseHit) treated as a decline.
-     edns_wire_eq_msg: forall w r, decode (edns_wire w r) = edns_msg w (decode r)
-         NOT proved (stated only): the byte-built OPT is compared with the message OPT by the
-         two-server differential driver (and is the subject of property C06).
+     edns_wire_eq_msg: proved below in full for the OPT record (size, DO, options as a multiset);
+         wire_opt_len_exact: the lease reserve is the exact encoded length.
 
    Limiter tokens of the per-client limiter and the inline/replay hand-off are compared
    differentially only; see props/C05/NOTES.md. *)
-From Sdns Require Import Common.Base Gen.C05 C05.Model C05.Proofs C05.Proofs_libfuel C05.Ladder C05.Proofs_ladder.
+From Sdns Require Import Common.Base Gen.C05 C05.Model C05.Proofs C05.Proofs_libfuel C05.Ladder C05.Proofs_ladder C05.Edns C05.Proofs_edns.
 Open Scope N_scope.
 
 (* the strict admission never accepts what the library rejects, and reads the same facts *)
@@ -109,3 +108,24 @@ Theorem ladder_refines_partial :
   = msg_ladder body reply shape_msg cut_msg fail_msg servfail_norec denial_msg zone_eval st tk rq ch None.
 Proof. exact serve_dns_refines. Qed.
 Print Assumptions ladder_refines_partial.
+
+(* the OPT built from bytes (appendWireOPT: cookie, NSID, keepalive, cached EDE) is the OPT
+   WriteMsg leaves on the message ToMsg hands over (EDE relayed, own cookie/NSID merged, the
+   request's forwarded subnet stripped, own keepalive): same size and DO, same options up to
+   order; both absent for a client without EDNS.  For every server-cookie function. *)
+Theorem edns_wire_eq_msg : forall (srv : list N -> list N) w ede,
+  only_subnet (ew_req_opts w) -> (forall e, ede = Some e -> eo_code e = OPT_EDE) ->
+  match wire_opt srv w ede, msg_opt srv w (tomsg_down ede) with
+  | None, None => True
+  | Some a, Some b => or_size a = or_size b /\ or_do a = or_do b /\ Permutation.Permutation (or_options a) (or_options b)
+  | _, _ => False
+  end.
+Proof. exact edns_wire_eq_msg_lemma. Qed.
+Print Assumptions edns_wire_eq_msg.
+
+(* wireOPTLen (+ the entry's EDE reserve) is exactly the encoded length of that record *)
+Theorem wire_opt_reserve_exact : forall (srv : list N -> list N) w ede,
+  (forall c, ew_cookie w = Some c -> length (srv c) = 40%nat) ->
+  optrec_len (wire_opt srv w ede) = wire_opt_len w + (if ew_noedns w then 0 else ede_reserve ede).
+Proof. exact wire_opt_len_exact. Qed.
+Print Assumptions wire_opt_reserve_exact.
